@@ -209,8 +209,8 @@ class GenericNonMultiplicativeRegistry(
                 return all_units.add(u, e)
 
         if not slct_unit.is_multiplicative:  # is offset unit
-            # Extract reference unit
-            return slct_unit.reference
+            # Extract reference unit and keep the multiplicative section
+            return all_units * slct_unit.reference
 
         # Otherwise, return the units unmodified
         return all_units
